@@ -51,12 +51,22 @@ func H09a() {
 		}
 		return ""
 	}
-	m := `module m { namespace "urn:m"; prefix m; include s; import x { prefix px; } ` + h09Typedef(sMTop, present[sMTop], names[sMTop]) + at(0) +
+	// the submodule-level typedefs sit in the first or in the second submodule a module includes
+	second := symBool()
+	incM, incX := "include s; ", "include xs; "
+	sName, xsName := "s", "xs"
+	if second {
+		incM, incX = "include s0; include s; ", "include xs0; include xs; "
+	}
+	m := `module m { namespace "urn:m"; prefix m; ` + incM + `import x { prefix px; } ` + h09Typedef(sMTop, present[sMTop], names[sMTop]) + at(0) +
 		`container c { ` + h09Typedef(sCont, present[sCont], names[sCont]) + at(1) + `} ` +
 		`grouping g { ` + h09Typedef(sGrp, present[sGrp], names[sGrp]) + at(2) + `} container u { uses g; } ` +
 		`rpc r { input { ` + h09Typedef(sInput, present[sInput], names[sInput]) + at(3) + `} } }`
 	s := `submodule s { belongs-to m { prefix m; } import x { prefix px; } ` + h09Typedef(sSTop, present[sSTop], names[sSTop]) + at(4) + `}`
-	x := `module x { namespace "urn:x"; prefix x; include xs; ` + h09Typedef(sXTop, present[sXTop], names[sXTop]) + `}`
+	x := `module x { namespace "urn:x"; prefix x; ` + incX + h09Typedef(sXTop, present[sXTop], names[sXTop]) + `}`
+	s0 := `submodule s0 { belongs-to m { prefix m; } typedef unrelated { type string; } }`
+	xs0 := `submodule xs0 { belongs-to x { prefix x; } typedef unrelated { type string; } }`
+	_, _ = sName, xsName
 	xs := `submodule xs { belongs-to x { prefix x; } ` + h09Typedef(sXSTop, present[sXSTop], names[sXSTop]) + `}`
 	note(m + s + x + xs)
 
@@ -91,7 +101,11 @@ func H09a() {
 		taken = symOr(taken, hit)
 	}
 
-	ms, lerrs := hLoad(m, s, x, xs)
+	texts := []string{m, s, x, xs}
+	if second {
+		texts = append(texts, s0, xs0)
+	}
+	ms, lerrs := hLoad(texts...)
 	check(len(lerrs) == 0, "the modules parse")
 	if len(lerrs) > 0 {
 		return
@@ -305,4 +319,76 @@ func H09c() {
 	check(!bad, "an unknown, unresolvable or cyclic type reference is an error")
 	e := ToEntry(ms.Modules["m"]).Dir["l"]
 	check(e != nil && e.Type != nil && (e.Type.Kind == Ystring || e.Type.Kind == Yunion), "the chain ends in its base kind")
+}
+
+// H09u: union members of the whole derivation chain: every member in written order, members
+// that are structurally identical to an earlier one listed once.
+func H09u() {
+	// member spellings and their structural signature (the library compares members structurally)
+	opts := []struct{ text, sig string }{
+		{"type string;", "string"}, {"type host;", "string"}, {"type label;", "string"}, {"type int8;", "int8"},
+		{"type enumeration { enum e1; enum e2; }", "enum"}, {"type pat;", "string-pattern"}, {"type uint32;", "uint32"}, {"type nosuch;", "ERR"},
+	}
+	n := 3 + symChoice(2)
+	body := ""
+	var sigs []string
+	bad := false
+	for i := 0; i < n; i++ {
+		o := opts[symChoice(len(opts))]
+		body += o.text + " "
+		if o.sig == "ERR" {
+			bad = true
+			continue
+		}
+		dup := false
+		for _, s := range sigs {
+			if s == o.sig {
+				dup = true
+			}
+		}
+		if !dup {
+			sigs = append(sigs, o.sig)
+		}
+	}
+	derived := symBool() // the union is reached through one more typedef level
+	m := `module m { namespace "urn:m"; prefix m; typedef host { type string; } typedef label { type string; } typedef pat { type string { pattern "p"; } } typedef u { type union { ` + body + `} } typedef u2 { type u; } leaf l { type `
+	if derived {
+		m += `u2; } }`
+	} else {
+		m += `u; } }`
+	}
+	note(m)
+	ms, lerrs := hLoad(m)
+	check(len(lerrs) == 0, "module parses")
+	errs := ms.Process()
+	if len(errs) > 0 {
+		reach("rejected")
+		check(bad, "a union over known member types resolves without error")
+		return
+	}
+	reach("resolved")
+	check(!bad, "an unknown member type of a union is an error")
+	e := ToEntry(ms.Modules["m"]).Dir["l"]
+	check(e != nil && e.Type != nil && e.Type.Kind == Yunion, "the leaf is a union")
+	if e == nil || e.Type == nil {
+		return
+	}
+	check(len(e.Type.Type) == len(sigs), "the union carries every member of the chain (structurally identical ones once)")
+	if len(e.Type.Type) == len(sigs) {
+		for i, sg := range sigs {
+			got := e.Type.Type[i]
+			switch sg {
+			case "string":
+				check(got.Kind == Ystring && len(got.Pattern) == 0, "members keep their written order")
+			case "string-pattern":
+				check(got.Kind == Ystring && len(got.Pattern) == 1, "members keep their written order")
+			case "int8":
+				check(got.Kind == Yint8, "members keep their written order")
+			case "uint32":
+				check(got.Kind == Yuint32, "members keep their written order")
+			case "enum":
+				check(got.Kind == Yenum, "members keep their written order")
+			}
+		}
+	}
 }
